@@ -172,3 +172,26 @@ def run(ctx):
     je = db.func("RedunBackendDb.record_job_end")
     ok = "db_job.call_hash = job.call_hash" in src(je) and "db_job.cached = job.was_cached" in src(je)
     r5.check(ok, f"{db.rel}:RedunBackendDb.record_job_end", "the finished job row does not point at the job's call node", db.rel, je.lineno)
+
+    # ---- C20.8 a shared call_hash always names a recorded call node ----------------------------
+    # Job.collapse makes the duplicate take over the twin's call_hash, and record_job_end writes it into job.call_hash (a foreign key to
+    # call_node).  A twin that does not record provenance never records its call node, so a provenance-recording job must not be collapsed onto it.
+    r8 = ctx.rule("C20.8", "a provenance-recording job is never collapsed onto a twin that records no provenance", floor=1)
+    cpj = m.func("Scheduler._check_pending_job")
+    c8 = CFG(cpj)
+    jv8 = cpj.args.args[1].arg
+    cols = [c8.node_of(c) for c in calls_in(cpj, shallow=True) if isinstance(c.func, ast.Attribute) and c.func.attr == "collapse" and src(c.func.value) == jv8]
+    if not cols:
+        raise AnalysisError("_check_pending_job: job.collapse(...) not found", "Scheduler._check_pending_job")
+    for cn in cols:
+        twin = src(next(c for c in ast.walk(cn.ast) if isinstance(c, ast.Call) and isinstance(c.func, ast.Attribute) and c.func.attr == "collapse").args[0])
+        tests = [n for n in c8.nodes if n.kind == "test" and isinstance(n.ast, ast.expr) and f"{twin}.recording_provenance()" in src(n.ast)]
+        ok = bool(tests) and c8.must_pass(c8.entry, tests, targets=[cn])
+        r8.check(
+            ok,
+            f"{m.rel}:Scheduler._check_pending_job:collapse-onto-unrecorded-twin",
+            f"`{src(cn.ast)}` is reached without testing {twin}.recording_provenance(): when the pending twin runs with prov=False its call node is never recorded, the collapsed job "
+            "inherits that call_hash and record_job_end fails with a FOREIGN KEY error (job.call_hash -> call_node), aborting the run",
+            m.rel,
+            cn.lineno,
+        )
